@@ -13,11 +13,11 @@ import (
 
 func init() {
 	register(&PropRules{
-		ID: "C10",
+		ID:      "C10",
 		Explain: "The agent never wedges — structural preconditions of deadlock freedom decided over all goroutine roles and channel creation sites (inclusion-based channel points-to; roles = go-callees reaching a function without crossing `go`): (C10.1) wait-for: no blocking send/receive by a single-instance goroutine on a channel whose only counterpart operations run in that same goroutine, for every creation site the operand may denote (so a mode-dependent alias such as upgradeChan=updateChan is examined by itself), and no cycle among roles other than the request/response rendezvous; (C10.2) pairing: every Store.* client method makes a fresh unbuffered response channel, puts it into the request, sends the request and immediately receives on that channel; in the dispatcher every case answers exactly once on the request's own channel on every path (none when response==nil); (C10.3) the dispatcher loop has no exit, is started exactly once per successfully built store and has a case for every request channel created in NewStore and exposed by GetInterface; (C10.4) helpers never wait on the dispatcher and the dispatcher never waits on slow things: no process wait, HTTP client call or sleep reachable from the dispatcher or hooks goroutine without crossing `go`; the remote upgrader acquires its semaphore only in a select with default.",
-		Undec: []string{"actual schedules and timing; slowness versus wedge", "a stalled remote master beyond 'never on the dispatcher's path'", "internals of net/http, glauth/ldap and the sasl accept loop", "panics (C02.3/C18.3 cover the known panic preconditions)"},
-		Run:   runC10,
-		Floors: map[string]int{"C10.1": 25, "C10.2": 18, "C10.3": 3, "C10.4": 3, "C10.5": 2},
+		Undec:   []string{"actual schedules and timing; slowness versus wedge", "a stalled remote master beyond 'never on the dispatcher's path'", "internals of net/http, glauth/ldap and the sasl accept loop", "panics (C02.3/C18.3 cover the known panic preconditions)"},
+		Run:     runC10,
+		Floors:  map[string]int{"C10.1": 25, "C10.2": 18, "C10.3": 3, "C10.4": 3, "C10.5": 2},
 	})
 }
 
@@ -494,8 +494,8 @@ func c103(c *an.Ctx, p *an.Prog) {
 	c.Check(len(bad) == 0 && n > 0, "C10.3", fnKey(ns)+"|dispatcher-started-once", p.Pos(ns.Pos()), fmt.Sprintf("%d paths: exactly one `go dispatcher` on every non-failing path", n), strings.Join(uniqS(bad), "; "))
 	// exhaustiveness: every chan field of `store` made in NewStore has a select case; GetInterface copies same-named fields
 	made := map[string]bool{}
-	for _, b := range ns.Blocks {
-		for _, in := range b.Instrs {
+	for _, in := range an.DeepInstrs(ns) {
+		{
 			if st, ok := in.(*ssa.Store); ok {
 				if fa, ok := st.Addr.(*ssa.FieldAddr); ok && isNamed(fa.X.Type(), mainPkg, "store") {
 					if _, ok := st.Val.(*ssa.MakeChan); ok {
@@ -506,8 +506,8 @@ func c103(c *an.Ctx, p *an.Prog) {
 		}
 	}
 	cased := map[string]bool{}
-	for _, b := range d.Blocks {
-		for _, in := range b.Instrs {
+	for _, in := range an.DeepInstrs(d) {
+		{
 			if sel, ok := in.(*ssa.Select); ok {
 				for _, st := range sel.States {
 					if u, ok := st.Chan.(*ssa.UnOp); ok {
@@ -530,8 +530,8 @@ func c103(c *an.Ctx, p *an.Prog) {
 	if gi := p.Method("/cmd/whawty-auth", "store", "GetInterface"); need(c, "C10.3", gi, "main.(*store).GetInterface") {
 		var bad []string
 		n := 0
-		for _, b := range gi.Blocks {
-			for _, in := range b.Instrs {
+		for _, in := range an.DeepInstrs(gi) {
+			{
 				st, ok := in.(*ssa.Store)
 				if !ok {
 					continue
@@ -571,8 +571,8 @@ func slowCalls(p *an.Prog, root *ssa.Function) []string {
 		if !p.InRepo(f) {
 			continue
 		}
-		for _, b := range f.Blocks {
-			for _, in := range b.Instrs {
+		for _, in := range an.DeepInstrs(f) {
+			{
 				ci, ok := in.(ssa.CallInstruction)
 				if !ok {
 					continue
@@ -635,8 +635,8 @@ func c104(c *an.Ctx, p *an.Prog) {
 // parameter `name` (directly, through a deferred closure, or by calling a function-typed parameter that the
 // caller bound to a closure doing so)?
 func receivesOn(fn *ssa.Function, isSem func(v ssa.Value) bool) bool {
-	for _, b := range fn.Blocks {
-		for _, in := range b.Instrs {
+	for _, in := range an.DeepInstrs(fn) {
+		{
 			if u, ok := in.(*ssa.UnOp); ok && u.Op == token.ARROW && isSem(u.X) {
 				return true
 			}
@@ -654,8 +654,8 @@ func semaphoreReleased(c *an.Ctx, p *an.Prog, rule string) {
 	}
 	// the semaphore: a local make(chan) used as a select-send in ru
 	var sem *ssa.MakeChan
-	for _, b := range ru.Blocks {
-		for _, in := range b.Instrs {
+	for _, in := range an.DeepInstrs(ru) {
+		{
 			if sel, ok := in.(*ssa.Select); ok {
 				for _, st := range sel.States {
 					if st.Send != nil {
